@@ -428,6 +428,38 @@ def invertFlagName (pairs : List (Str × Str)) (flag : Str) : Str :=
 /-- `--foo-bar` ↦ `foo_bar`: the config-file spelling of a command-line flag -/
 def iniSpelling (flag : Str) : Str := (flag.drop 2).map (fun c => if c == '-' then '_' else c)
 
+/-! ## §5b value conversion of multi-entry path options -/
+
+/-- `re.split("[,:]", s)` / `s.split(",")`: cut at every separator character (empty pieces are kept) -/
+def splitOnAny (seps : List Char) : Str → List Str
+  | [] => [[]]
+  | c :: s =>
+    if seps.contains c then [] :: splitOnAny seps s
+    else match splitOnAny seps s with
+      | [] => [[c]]
+      | p :: ps => (c :: p) :: ps
+
+def isWs (c : Char) : Bool := c == ' ' || c == '\n' || c == '\t' || c == '\r'
+/-- `str.strip()` -/
+def strip (s : Str) : Str := ((s.dropWhile isWs).reverse.dropWhile isWs).reverse
+
+/-- `os.path.expanduser` as far as config values use it: `~` alone or `~/…` at the very beginning of the text -/
+def expandUser (home : Str) : Str → Str
+  | ['~'] => home
+  | '~' :: '/' :: r => home ++ '/' :: r
+  | e => e
+
+/-- the converter of a multi-entry path option (`mypy_path`): split first, then strip and expand every entry
+    on its own — `[expand_path(p.strip()) for p in re.split("[,:]", s)]` -/
+def convPathList (expand : Str → Str) (seps : List Char) (s : Str) : List Str :=
+  (splitOnAny seps s).map (fun e => expand (strip e))
+
+/-- `sep.join(entries)` -/
+def joinWith (sep : Char) : List Str → Str
+  | [] => []
+  | [a] => a
+  | a :: b :: r => a ++ sep :: joinWith sep (b :: r)
+
 /-! ## §6 inline comments and the whole chain -/
 
 def dedupSorted : List Str → List Str
